@@ -63,6 +63,18 @@ def check_scatter(prog, rep, m):
         it.env.update({'sorted_indices': Arr('sorted_indices', 'param'), 'zone_breaks': Arr('zone_breaks', 'param'),
                        'iz': Rat.sym('iz')})
         it.k.arrays.update({'sorted_indices': it.env['sorted_indices'], 'zone_breaks': it.env['zone_breaks']})
+        # tables derived from the break vector before the loop (e.g. a vector of segment starts)
+        pre = [n for n in f.own_nodes() if isinstance(n, ast.Assign) and isinstance(n.targets[0], ast.Name) and
+               n.lineno < loops[0].lineno and 'zone_breaks' in norm(n.value) and norm(n.targets[0]) not in ('zone_breaks', 'sorted_indices')
+               and not any(isinstance(x, ast.Call) and norm(x.func).split('.')[-1] in ('_sort_and_stride', '_strides') for x in ast.walk(n.value))]
+
+        def run_pre(itp):
+            for n in pre:
+                try:
+                    itp.stmt(n)
+                except AnalysisIncomplete:
+                    pass
+        run_pre(it)
         try:
             for st in loops[0].body:
                 if isinstance(st, ast.Assign) and norm(st.targets[0]) == 'iz':
@@ -77,7 +89,8 @@ def check_scatter(prog, rep, m):
             zs = it.env.get('zs')
             res = []
             views = []
-            if isinstance(zs, View):
+            if isinstance(zs, View) and not any(isinstance(a, App) and a.name == 'opaque' for b_ in zs.axes[0][1:] if isinstance(b_, Rat)
+                                                for a in walk_atoms(b_)):
                 views = [(None, zs)]
             elif isinstance(zs, Rat):
                 # merged branches: ite(cond, view_a, view_b) is kept as opaque views - evaluate each branch instead
@@ -89,6 +102,7 @@ def check_scatter(prog, rep, m):
                     it2.env.update({'sorted_indices': Arr('sorted_indices', 'param'), 'zone_breaks': Arr('zone_breaks', 'param'),
                                     'iz': Rat.const(izv)})
                     it2.k.arrays.update({'sorted_indices': it2.env['sorted_indices'], 'zone_breaks': it2.env['zone_breaks']})
+                    run_pre(it2)
                     for st in loops[0].body:
                         if isinstance(st, ast.Assign) and norm(st.targets[0]) == 'iz':
                             continue
